@@ -2476,7 +2476,11 @@ func (c *compiler) VisitWhileStmt(s *ast.WhileStmt) ast.VisitResult {
 		}
 
 		c.cbb, c.scp = condBlock, c.exitScope(c.scp) // the condition is not in scope
+		// the condition is evaluated on every iteration, so its temporaries
+		// live in their own scope and are freed after each evaluation
+		c.scp = newScope(c.scp)
 		cond, _, _ := c.evaluate(s.Condition)
+		c.scp = c.exitScope(c.scp)
 		leaveBlock := c.cf.NewBlock("")
 		c.commentNode(c.cbb, s, "")
 		c.cbb.NewCondBr(cond, body, leaveBlock)
@@ -2611,15 +2615,21 @@ func (c *compiler) VisitForStmt(s *ast.ForStmt) ast.VisitResult {
 
 	c.cbb = loopUp
 	// we are counting up, so compare less-or-equal
+	// the end value is evaluated on every iteration and only on one of the two paths,
+	// so its temporaries live in their own scope and are freed right after the comparison
+	c.scp = newScope(c.scp)
 	to, toType, _ := c.evaluate(s.To)
 	cond = new_IorF_comp(enum.IPredSLE, enum.FPredOLE, c.cbb.NewLoad(indexTyp.IrType(), indexVar), indexTyp, to, toType, to)
+	c.scp = c.exitScope(c.scp)
 	c.commentNode(c.cbb, s, "")
 	c.cbb.NewCondBr(cond, forBody, leaveBlock)
 
 	c.cbb = loopDown
 	// we are counting down, so compare greater-or-equal
+	c.scp = newScope(c.scp)
 	to, toType, _ = c.evaluate(s.To)
 	cond = new_IorF_comp(enum.IPredSGE, enum.FPredOGE, c.cbb.NewLoad(indexTyp.IrType(), indexVar), indexTyp, to, toType, to)
+	c.scp = c.exitScope(c.scp)
 	c.commentNode(c.cbb, s, "")
 	c.cbb.NewCondBr(cond, forBody, leaveBlock)
 
